@@ -61,6 +61,37 @@ def ref_label_to_tags(label, o):
     return [data.Tag(term=term, value=label)]
 
 
+_KIND = [0]
+
+
+def _as_callable_kind(f):
+    """The one-argument callback as callers have it: plain function, function with further optional parameters,
+    functools.partial with a bound keyword, variadic function, callable object, bound method."""
+    import functools
+
+    _KIND[0] += 1
+    k = _KIND[0] % 6
+    if k == 1:
+        return lambda x, default=None, *, strict=False: f(x)
+    if k == 2:
+        def g(x, sep):
+            return f(x)
+        return functools.partial(g, sep="|")
+    if k == 3:
+        return lambda *a: f(*a)
+    if k == 4:
+        class _C:
+            def __call__(self, x, extra=None):
+                return f(x)
+        return _C()
+    if k == 5:
+        class _M:
+            def convert(self, x):
+                return f(x)
+        return _M().convert
+    return f
+
+
 def _mk_label_kwargs(o):
     kw = {}
     fm = o.get("tag_fn_mode")
@@ -72,6 +103,8 @@ def _mk_label_kwargs(o):
         def f(l):
             raise ValueError("no")
         kw["tag_fn"] = f
+    if "tag_fn" in kw:
+        kw["tag_fn"] = _as_callable_kind(kw["tag_fn"])
     for k in ("tag_mapping", "term_mapping", "key_mapping", "key", "term", "fallback", "empty_labels"):
         if o.get(k) is not None:
             kw[k] = o[k]
@@ -196,6 +229,9 @@ def _mk_from_kwargs(o):
         kw["seq_label_fn"] = lambda ts: f"SEQ<{len(ts)}>"
     if o.get("label_fn_mode"):
         kw["label_fn"] = lambda t: f"FN<{t.value}>"
+    for k in ("seq_label_fn", "label_fn"):
+        if k in kw:
+            kw[k] = _as_callable_kind(kw[k])
     for k in ("label_mapping", "value_only", "select_by_key", "index", "separator", "empty_label"):
         if o.get(k) is not None:
             kw[k] = o[k]
